@@ -7,6 +7,49 @@ use std::collections::{BTreeSet, HashMap, HashSet};
 
 pub type BddMemo<'a> = HashMap<*const BddNode<'a>, Tt>;
 
+thread_local! {
+    /// Embedding of the truth-table oracle's variables into a builder with many more variables: when set,
+    /// builder label `l` stands for oracle variable `map[l]`. A node on a label without an entry makes the
+    /// walked function depend on a variable none of the operands mentions; that is recorded in FOREIGN_LABEL_SEEN
+    /// (the table then treats the node as testing oracle variable 7, so the result is wrong in any case).
+    static LABEL_MAP: std::cell::RefCell<Option<Vec<Option<usize>>>> = const { std::cell::RefCell::new(None) };
+    static FOREIGN_LABEL_SEEN: std::cell::Cell<Option<usize>> = const { std::cell::Cell::new(None) };
+}
+
+pub fn set_label_map(m: Option<Vec<Option<usize>>>) {
+    LABEL_MAP.with(|x| *x.borrow_mut() = m);
+    FOREIGN_LABEL_SEEN.with(|x| x.set(None));
+}
+
+pub fn extend_label_map(label: usize, oracle_var: usize) {
+    LABEL_MAP.with(|x| {
+        if let Some(m) = x.borrow_mut().as_mut() {
+            if m.len() <= label {
+                m.resize(label + 1, None);
+            }
+            m[label] = Some(oracle_var);
+        }
+    });
+}
+
+/// a builder label outside the embedding that some walked diagram tested (and reset)
+pub fn take_foreign_label() -> Option<usize> {
+    FOREIGN_LABEL_SEEN.with(|x| x.take())
+}
+
+fn oracle_var_of(label: usize) -> usize {
+    LABEL_MAP.with(|x| match x.borrow().as_ref() {
+        None => label,
+        Some(m) => match m.get(label).copied().flatten() {
+            Some(v) => v,
+            None => {
+                FOREIGN_LABEL_SEEN.with(|f| f.set(Some(label)));
+                crate::tt::NV - 1
+            }
+        },
+    })
+}
+
 /// truth table of the *regular* function stored at `node`
 pub fn bdd_node_tt<'a>(node: &'a BddNode<'a>, memo: &mut BddMemo<'a>) -> Tt {
     let key = node as *const BddNode<'a>;
@@ -15,7 +58,7 @@ pub fn bdd_node_tt<'a>(node: &'a BddNode<'a>, memo: &mut BddMemo<'a>) -> Tt {
     }
     let lo = bdd_tt_m(node.low, memo);
     let hi = bdd_tt_m(node.high, memo);
-    let v = node.var.value_usize();
+    let v = oracle_var_of(node.var.value_usize());
     let t = Tt::var(v).ite(hi, lo);
     memo.insert(key, t);
     t
